@@ -108,6 +108,13 @@ struct ItemReq {
     /// drop `mut self`-less generics etc.: extra attrs to add verbatim before the item
     #[serde(default)]
     add_attrs: Vec<String>,
+    /// H1: also extract, verbatim, the private helper methods of the same type (same file, inherent impls) that the extracted
+    /// method calls through `self.name(..)` / `Self::name(..)`, transitively, unless the environment provides them (`env_methods`).
+    /// Makes a unit survive an `extract method` refactoring of the function under contract.
+    #[serde(default)]
+    with_helpers: bool,
+    #[serde(default)]
+    env_methods: Vec<String>,
 }
 
 #[derive(Serialize, Default)]
@@ -1089,6 +1096,66 @@ fn process(repo: &str, req: &ItemReq) -> ItemResp {
         return resp;
     }
     let mut item = found.into_iter().next().unwrap();
+    if req.with_helpers {
+        if let Item::Impl(single) = &mut item {
+            // all inherent methods of the type in this file
+            let mut all: BTreeMap<String, ImplItemFn> = BTreeMap::new();
+            fn collect(items: &[Item], ty: &str, all: &mut BTreeMap<String, ImplItemFn>) {
+                for it in items {
+                    match it {
+                        Item::Impl(im) if im.trait_.is_none() && self_ty_name(&im.self_ty) == ty && !has_cfg_test(&im.attrs) => {
+                            for ii in &im.items {
+                                if let ImplItem::Fn(f) = ii {
+                                    all.insert(f.sig.ident.to_string(), f.clone());
+                                }
+                            }
+                        }
+                        Item::Mod(m) if !has_cfg_test(&m.attrs) => {
+                            if let Some((_, inner)) = &m.content {
+                                collect(inner, ty, all);
+                            }
+                        }
+                        _ => {}
+                    }
+                }
+            }
+            collect(&file.items, &ps.name, &mut all);
+            struct Calls(Vec<String>);
+            impl<'ast> syn::visit::Visit<'ast> for Calls {
+                fn visit_expr_method_call(&mut self, mc: &'ast syn::ExprMethodCall) {
+                    if compact_tokens(&mc.receiver) == "self" {
+                        self.0.push(mc.method.to_string());
+                    }
+                    syn::visit::visit_expr_method_call(self, mc);
+                }
+                fn visit_expr_call(&mut self, c: &'ast syn::ExprCall) {
+                    let f = compact_tokens(&c.func);
+                    if let Some(n) = f.strip_prefix("Self::") {
+                        self.0.push(n.to_string());
+                    }
+                    syn::visit::visit_expr_call(self, c);
+                }
+            }
+            let mut have: Vec<String> = single.items.iter().filter_map(|ii| if let ImplItem::Fn(f) = ii { Some(f.sig.ident.to_string()) } else { None }).collect();
+            let mut queue: Vec<ImplItemFn> = single.items.iter().filter_map(|ii| if let ImplItem::Fn(f) = ii { Some(f.clone()) } else { None }).collect();
+            while let Some(f) = queue.pop() {
+                let mut c = Calls(vec![]);
+                syn::visit::Visit::visit_block(&mut c, &f.block);
+                for name in c.0 {
+                    if have.contains(&name) || req.env_methods.contains(&name) {
+                        continue;
+                    }
+                    if let Some(h) = all.get(&name) {
+                        have.push(name.clone());
+                        single.items.push(ImplItem::Fn(h.clone()));
+                        queue.push(h.clone());
+                        *resp.rewrites.entry("H1".into()).or_insert(0) += 1;
+                        resp.dropped.push(format!("H1 helper method `{}` extracted with the item", name));
+                    }
+                }
+            }
+        }
+    }
     let ts = item.to_token_stream();
     let (a, b) = span_lines(&ts);
     resp.line_start = a;
